@@ -112,6 +112,48 @@ CHECKS = {
         ref="DESIGN.md 6/C20",
         note=NOTE + "NumPy aliasing is not modelled in Lean: the purity claim rests on the syntactic effect table plus before/after snapshots (search oracle).",
         technique="Lean 4 proof (invariant by induction over operation lists; decide on the generated effect table) tied by AST translator and differential op-sequence driver"),
+    "C03": dict(
+        text="Theorems (algebra of the shift-invert glue): A PSD, B PD, sigma<0 => A - sigma*B positive, injective, unique solutions; (lam,x) "
+             "eigenpair with lam != sigma <=> (A-sigma B) y = B x with y = x/(lam-sigma); lam -> 1/(lam-sigma) positive and strictly decreasing "
+             "on [0,inf), so the k largest transformed values are the k smallest eigenvalues and ascending order is the reverse; eigenvalues "
+             ">= 0 (Rayleigh quotient); eigenvectors of distinct eigenvalues are B-orthogonal; A f = 0 iff f is constant on every element, "
+             "hence on edge-connected components (triangles and tetrahedra). sigma<0 and the call shape are re-extracted from the source; "
+             "the matrix actually factorised and the eigsh arguments are captured and compared. PARTIAL: convergence/completeness of ARPACK "
+             "is assumed and monitored on every call (residuals, Gram matrix, order, dense reference, zero count vs components).",
+        ref="DESIGN.md 6/C03",
+        note=NOTE + "contract of ARPACK eigsh and SuperLU (monitored, not proved).",
+        technique="Lean 4 proof of the shift-invert algebra and kernel characterisation, tied by AST-extracted constants, captured-argument comparison; external eigensolver contract monitored"),
+    "C04": dict(
+        text="Matrix-level theorems for every mesh: under any similarity with factor s the triangle stiffness is unchanged and mass scales by "
+             "s^2 (tetra: |s| and |s|^3), so isometries (rotations, reflections, translations) change nothing; relabelling by any index map "
+             "transports triplets and entries; element permutations, triangle rotations/flips and tetra vertex swaps leave all entries "
+             "unchanged; eigenpairs are transported with lambda -> lambda/s^2; normalisation by area / vol^(2/3) cancels the scaling; "
+             "reweight and Euclidean distance specifications. compute_shapedna's dictionary, normalize_ev (3 methods x 2 kinds), "
+             "reweight_ev, compute_distance are compared with the model. Spectrum-level statement holds relative to the eigensolver contract of C03.",
+        ref="DESIGN.md 6/C04",
+        note=NOTE + "spectrum-level invariance = matrix-level theorems + eigsh contract (C03); scaling limited to [1/4,4] in the search oracle.",
+        technique="Lean 4 proof (similarity lemmas on dot products, induction over elements) tied by tracing bridges of the FEM kernels and differential driver"),
+    "C08": dict(
+        text="PARTIAL. Proved: the right-hand side div(grad f/|grad f|) sums to zero (compatibility of the singular system), div(grad u) = -A u "
+             "(triangles; tetrahedra of any orientation), A g = 0 iff g constant on components, gradient kernels exact on affine data "
+             "(C06/C03 theorems, kernels bridged from source). The right-hand side and matrix handed to the Poisson solve, the minimum "
+             "shift and the pinned vertex of rotated_f are captured and compared with the model. Not provable in an exact model: "
+             "existence/finiteness of SuperLU's factorisation of the SINGULAR stiffness matrix (recorded finding F15 on exactly "
+             "representable meshes); the unit-slope / quarter-turn exactness clauses are evaluated by the search oracle.",
+        ref="DESIGN.md 6/C08",
+        note=NOTE + "singular solve contract assumed and monitored; composition theorems geo_affine are corollaries listed in DESIGN.",
+        technique="Lean 4 proof of the operator identities behind the geodesic/rotated systems, tied by traced kernels and captured-argument comparison"),
+    "C11": dict(
+        text="Theorems for every vertex list and triangle list: counts (4T triangles, V+E vertices), old vertices keep index and coordinates, new "
+             "vertex k is the midpoint of edge k (bijection), every child has a quarter of the parent's cross product (same winding), "
+             "children's signed volumes / centroids / Heron areas sum to the parent's, hence volumeSum, area, centroid are preserved; "
+             "refine n = n single steps; half-edge counts transfer to the refined mesh, so closedness is preserved for all meshes and "
+             "manifoldness, orientedness and the Euler characteristic for meshes without two triangles on the same vertex set "
+             "(counter-example recorded as finding F14); rm_free_vertices_ specification (kept/deleted indices, rank renumbering, no free "
+             "vertex remains). Model compared exactly (incl. new-vertex numbering) on all families, it in 0..3.",
+        ref="DESIGN.md 6/C11",
+        note=NOTE + "refine_ model hand-written, tied by exact differential comparison (CSR edge order re-implemented).",
+        technique="Lean 4 proof (ring identities per parent triangle, half-edge counting by induction) tied by exact differential driver"),
 }
 
 NOT_YET = {}
